@@ -729,13 +729,14 @@ func TaskUpdates(ctx context.Context, pg wpg.Conn) ([]TaskUpdate, error) {
 // Loads, Starts, and provides method for Restarting tasks
 // based on config stored in the DB and in the config file.
 type Manager struct {
-	ctx     context.Context
-	running sync.Mutex
-	restart chan struct{}
-	tasks   []*Task
-	updates chan uint64
-	pgp     *pgxpool.Pool
-	conf    config.Root
+	ctx        context.Context
+	running    sync.Mutex
+	restarting sync.Mutex
+	restart    chan struct{}
+	tasks      []*Task
+	updates    chan uint64
+	pgp        *pgxpool.Pool
+	conf       config.Root
 }
 
 func NewManager(ctx context.Context, pgp *pgxpool.Pool, conf config.Root) *Manager {
@@ -787,7 +788,17 @@ func (tm *Manager) runTask(t *Task) {
 // Ensures all running tasks stop
 // and calls [Manager.Run] in a new go routine.
 func (tm *Manager) Restart() error {
-	close(tm.restart)
+	// one restart at a time: a second request waits for the first
+	// one's generation to be up and then replaces that generation
+	tm.restarting.Lock()
+	defer tm.restarting.Unlock()
+	select {
+	case <-tm.restart:
+		// already closed: the previous Run failed before
+		// it could start a generation
+	default:
+		close(tm.restart)
+	}
 	ec := make(chan error)
 	go tm.Run(ec)
 	return <-ec
@@ -811,9 +822,9 @@ func (tm *Manager) Run(ec chan error) {
 		ec <- fmt.Errorf("loading tasks: %w", err)
 		return
 	}
+	tm.restart = make(chan struct{})
 	close(ec)
 
-	tm.restart = make(chan struct{})
 	var wg sync.WaitGroup
 	for i := range tm.tasks {
 		i := i
